@@ -158,10 +158,13 @@ func (s *state) walk(node ast.Node) {
 		var value = s.block(node.Expr)
 		s.jsln("var ", s.scope.makevar(node.Name), " = ", value, ";")
 	case *ast.LetContentNode:
+		// (the name is bound after the body is translated: the body may refer to
+		// an outer variable of the same name.)
 		var oldBufferName = s.bufferName
-		s.bufferName = s.scope.makevar(node.Name)
+		s.bufferName = s.scope.newname(node.Name)
 		s.jsln("var ", s.bufferName, " = '';")
 		s.walk(node.Body)
+		s.scope.bind(node.Name, s.bufferName)
 		s.bufferName = oldBufferName
 
 	// Values ----------
@@ -496,7 +499,7 @@ func (s *state) visitCall(node *ast.CallNode) {
 				dataExpr += param.Key + ": " + s.block(param.Value)
 			case *ast.CallParamContentNode:
 				var oldBufferName = s.bufferName
-				s.bufferName = s.scope.makevar("param")
+				s.bufferName = s.scope.newname("param") // (not a soy variable: not bound)
 				s.jsln("var ", s.bufferName, " = '';")
 				s.walk(param.Content)
 				dataExpr += param.Key + ": " + s.bufferName
